@@ -221,6 +221,10 @@ def hierarchy_mismatches(cmp_, deck, check_prov=True, check_comp=False,
                     problem = 'level-0 point in volume %d, owner %d' % (vid, owner)
             else:
                 prov = vol.prov
+                if leaf_is_element:
+                    # the element itself is the filler: the comment lists its
+                    # containers only
+                    chain = chain[:-1]
                 if len(prov) != len(chain):
                     problem = 'comment %r has %d pairs, chain %r' % (
                         vol.comment, len(prov), chain)
@@ -231,9 +235,14 @@ def hierarchy_mismatches(cmp_, deck, check_prov=True, check_comp=False,
                     else:
                         first = prov[0][0]
                         if leaf_is_element:
+                            k = (loc.chain[i][-1][1], loc.chain[i][-1][2])
                             if first <= max_cell:
                                 problem = ('own-universe lattice element '
                                            'reported as real cell %d' % first)
+                            elif synth.setdefault(first, k) != k or \
+                                    rsynth.setdefault(k, first) != first:
+                                problem = ('synthetic id %d used for two '
+                                           'lattice elements' % first)
                         elif first != owner:
                             problem = 'comment %r names filler %d, owner is %d' \
                                 % (vol.comment, first, owner)
@@ -248,9 +257,6 @@ def hierarchy_mismatches(cmp_, deck, check_prov=True, check_comp=False,
                                     break
                             else:
                                 k = (ent[1], ent[2])
-                                if leaf_is_element and ent is chain[-1]:
-                                    # the element itself is the filler
-                                    continue
                                 if b <= max_cell:
                                     problem = ('lattice element reported as '
                                                'real cell %d' % b)
